@@ -8,7 +8,11 @@ every heap effect in it is classified by its receiver:
                  response / exception being produced, parameter dicts built per call; ``self`` inside
                  methods of per-request classes (DispatchState, HTTPException family, RerouteWSGI)
   shared         everything else: ``self`` of Application / BoundRoute / Route / ErrorHandler /
-                 Middleware objects, module globals, parameters of unknown role
+                 Middleware objects, module globals (also under a local that only names one), parameters of
+                 unknown role, the default object of a parameter (whatever the parameter is called), the class
+                 object (``cls`` / ``x.__class__`` / ``type(x)``) whatever the lifetime of the instances; a field
+                 of a per-request class that is initialised in the class body only and updated in place
+                 (``field_freshness``)
 """
 import ast
 
@@ -94,6 +98,18 @@ class RequestPath(object):
         if root in fresh:
             return 'fresh', 'allocated in this activation'
         ci = self.cg.enclosing_class(fi)
+        # the class object is one per process, whatever the lifetime of the instances: ``cls.x``, ``self.__class__.x``, ``type(self).x``
+        if root == 'cls' and fi.params()[:1] == ['cls']:
+            return 'shared', 'the class object (cls) is shared by all requests'
+        if len(eff.chain) >= 2 and eff.chain[1] == '__class__':
+            return 'shared', 'the class object (%s.__class__) is shared by all requests' % root
+        if root == 'type' and len(eff.chain) >= 2 and eff.chain[1] == '()' and 'type' not in fi.params():
+            return 'shared', 'the class object (type(..)) is shared by all requests'
+        # the default object of a parameter is evaluated once, when the function is defined (whatever the parameter is called)
+        if root in fi.params() and root not in ('self', 'cls'):
+            d = self._default_of(fi, root)
+            if d is not None and self._mutable_default(d) and not any(not isinstance(x[1], ast.AugAssign) for x in self._assigned(fi, root)):
+                return 'shared', 'default object of parameter %s (%s: evaluated once, at definition)' % (root, short(d))
         if root in ('self', 'cls'):
             if self.is_per_request_class(ci):
                 return 'request-local', 'self of per-request class %s' % ci.name
@@ -119,6 +135,47 @@ class RequestPath(object):
             return 'shared', 'module-level object %s' % root
         # local of unknown provenance (e.g. alias of a parameter)
         return 'shared', 'local %s of unknown provenance' % root
+
+    @staticmethod
+    def _default_of(fi, name):
+        a = fi.node.args
+        pos = a.posonlyargs + a.args
+        out = dict(zip([x.arg for x in pos[len(pos) - len(a.defaults):]], a.defaults))
+        out.update((x.arg, d) for x, d in zip(a.kwonlyargs, a.kw_defaults) if d is not None)
+        return out.get(name)
+
+    @staticmethod
+    def _mutable_default(d):
+        if isinstance(d, (ast.List, ast.Dict, ast.Set, ast.ListComp, ast.DictComp, ast.SetComp)):
+            return True
+        if isinstance(d, ast.Call):
+            return not (isinstance(d.func, ast.Name) and d.func.id in ('tuple', 'frozenset', 'object', 'int', 'float', 'str', 'bytes', 'bool'))
+        return False
+
+    @staticmethod
+    def _assigned(fi, name):
+        from ..astutil import assigned_value
+        return assigned_value(fi.node, name)
+
+    def _module_level_object(self, fi, name):
+        """``name`` read in fi (where it is neither a parameter nor assigned) denotes a module-level object of the analysed
+        tree -- not a function, class or module."""
+        if name in fi.params() or name in ('self', 'cls', 'True', 'False', 'None'):
+            return False
+        for n in ast.walk(fi.node):
+            if isinstance(n, ast.Name) and n.id == name and isinstance(n.ctx, (ast.Store, ast.Del)):
+                return False
+        parts = fi.qualname.split('.')
+        for i in range(len(parts) - 1, 0, -1):
+            outer = fi.mod.functions.get('.'.join(parts[:i]))
+            if outer is not None and not isinstance(outer.node, ast.Lambda):
+                if name in outer.params() or any(isinstance(n, ast.Name) and n.id == name and isinstance(n.ctx, ast.Store) for n in ast.walk(outer.node)):
+                    return False
+        try:
+            kind, m, obj = self.repo.resolve(fi.mod, name)
+        except Exception:
+            return False
+        return kind == 'value' and m is not None and not m.external
 
     def param_role(self, fi, name, depth=0):
         """A parameter without a role of its own takes the role of what is passed for it: when *every* call of the
@@ -285,6 +342,8 @@ class RequestPath(object):
                         src = norm(v)
                     elif b in params and b not in REQUEST_LOCAL_NAMES and b not in ('self', 'cls') and not isinstance(v, ast.Name):
                         src = norm(v)
+                    elif b not in names and self._module_level_object(fi, b):
+                        src = 'the module-level object %s' % norm(v)      # ``memo = _MEMO`` / ``row = _TABLE[key]``
                     else:
                         ok = False
                         break
@@ -419,6 +478,32 @@ class RequestPath(object):
                 rec = ast.copy_location(ast.Assign(targets=[ast.Attribute(value=ast.Name(id='self', ctx=ast.Load()), attr=field, ctx=ast.Store())],
                                                    value=v if v is not None else ast.Name(id='<unpacked>', ctx=ast.Load())), st)
             out.append((ci, fi, field, rec, ok))
+        # a field initialised in the class body only: one object for every instance, whatever the lifetime of the instances.
+        # An in-place update through ``self.<field>`` then needs every construction to give the instance its own object first.
+        seen_cl = set()
+        for ci, field, fi, node, hard in muts:
+            if (ci, field) in seen_cl:
+                continue
+            seen_cl.add((ci, field))
+            try:
+                owner, val = self.repo.class_attr(ci, field)
+            except Exception:
+                owner, val = None, None
+            if owner is None or not isinstance(val, ast.expr) or owner.mod.external or not self._mutable_default(val):
+                continue
+            init = self.repo.find_method(ci, '__init__')
+            covered = False
+            if init is not None and not init.mod.external:
+                stores = [a[3] for a in asgs if a[1] == field and a[2] is init]
+                if stores:
+                    from .common import cfg_of
+                    cfg = cfg_of(init)
+                    nodes = cfg.nodes_of_all(stores)
+                    covered = bool(nodes) and cfg.must_pass(nodes, cfg.entry, cfg.exit, normal_only=True)
+            if not covered:
+                rec = ast.copy_location(ast.Assign(targets=[ast.Attribute(value=ast.Name(id=owner.name, ctx=ast.Load()), attr=field, ctx=ast.Store())],
+                                                   value=val), val)
+                out.append((ci, init if init is not None and not init.mod.external else fi, field, rec, False))
         return out
 
     def _fresh_value(self, fi, v, st):
